@@ -463,6 +463,8 @@ func catTerms(parts ...*Term) *Term {
 			flat = append(flat, p.Args...)
 		} else if p.Op == "const" && p.Name == "nil" {
 			// nil slice contributes nothing
+		} else if p.Op == "make" && len(p.Args) == 1 && p.Args[0].String() == "const:0" {
+			// make([]byte, 0, n): an empty buffer contributes nothing
 		} else {
 			flat = append(flat, p)
 		}
@@ -1136,6 +1138,13 @@ func (s *Sym) evalCall(v *ssa.Call) *Term {
 	case "golang.org/x/crypto/cryptobyte.NewBuilder":
 		return T("builder", v.Name()+"@"+shortName(v.Parent()))
 	}
+	// a hand-written max/min of two integers is the builtin
+	if f := cc.StaticCallee(); f != nil && InModule(f) && (f.Name() == "max" || f.Name() == "min") && len(f.Params) == 2 && f.Signature.Recv() == nil {
+		if _, _, isInt := intBits(f.Params[0].Type(), 64); isInt {
+			a, b := s.Of(cc.Args[0]), s.Of(cc.Args[1])
+			return &Term{Op: "call", Name: "builtin." + f.Name(), Args: []*Term{a, b}, Src: v, Site: v}
+		}
+	}
 	// in-module callee with a body: inline its return term
 	if f := cc.StaticCallee(); f != nil && InModule(f) && f.Blocks != nil && len(s.stack) < 6 &&
 		(inlinable(f) || (s.InlineSamePkg && fnPkgPath(f) == fnPkgPath(s.stack[0]) && inlinableShape(f))) && !s.noInline[f] {
@@ -1258,6 +1267,13 @@ func orderedCallsOn(recv ssa.Value, until ssa.Instruction) (calls []ssa.CallInst
 			isRecv = cc.Value == recv
 		} else if len(cc.Args) > 0 && cc.Args[0] == recv && cc.StaticCallee() != nil && cc.StaticCallee().Signature.Recv() != nil {
 			isRecv = true
+		} else if f := cc.StaticCallee(); f != nil && InModule(f) && f.Blocks != nil && isBuilderPtr(recv.Type()) {
+			// the builder handed to an in-module helper that writes to it
+			for _, a := range cc.Args {
+				if a == recv {
+					isRecv = true
+				}
+			}
 		}
 		if !isRecv || ci == until {
 			continue
@@ -1366,6 +1382,22 @@ func (s *Sym) builderCall(c ssa.CallInstruction) *Term {
 	name := calleeName(cc)
 	const pfx = "(*golang.org/x/crypto/cryptobyte.Builder)."
 	if !strings.HasPrefix(name, pfx) {
+		// an in-module helper receiving the builder: what it adds, with its
+		// parameters bound to the arguments of this call
+		if f := cc.StaticCallee(); f != nil && InModule(f) && f.Blocks != nil && len(s.stack) < 14 {
+			for _, g := range s.stack {
+				if g == f {
+					return T("unknown", "recursive builder helper "+name)
+				}
+			}
+			for i, a := range cc.Args {
+				if isBuilderPtr(a.Type()) && i < len(f.Params) {
+					ch := s.child(f)
+					s.bindArgs(ch, f, cc.Args, c)
+					return ch.builderTerm(f.Params[i], nil)
+				}
+			}
+		}
 		return T("unknown", "non-builder call "+name)
 	}
 	m := name[len(pfx):]
@@ -2033,6 +2065,13 @@ func (s *Sym) bufferCat(v ssa.Value) *Term {
 		switch parts[0].t.Op {
 		case "u8", "u16", "u32", "u64":
 		default:
+			// a buffer of exactly len(x) bytes filled by copy(buf, x) has the
+			// content x (its freshness is a matter for the aliasing rules, which
+			// work on SSA values, not on terms)
+			d0, d1 := parts[0].off, parts[0].ln.minus(total)
+			if len(copies) == 1 && len(d0.c) == 0 && d0.k.Sign() == 0 && len(d1.c) == 0 && d1.k.Sign() == 0 {
+				return parts[0].t
+			}
 			return nil // one piece: the plain make(len, filler) form describes it
 		}
 	}
@@ -2257,4 +2296,8 @@ func spilledParam(v ssa.Value) *ssa.Parameter {
 		}
 	}
 	return nil
+}
+
+func isBuilderPtr(t types.Type) bool {
+	return strings.HasSuffix(t.String(), "golang.org/x/crypto/cryptobyte.Builder") && strings.HasPrefix(t.String(), "*")
 }
